@@ -19,7 +19,7 @@ US = b"\x1f"
 
 def gen_call(rng, tok, ds):
     t = tok.encode()
-    kind = rng.choice(["null", "empty", "one", "few", "emptystrs", "ctrl", "spaces", "8bit", "long-at", "long-far", "many", "short"])
+    kind = rng.choice(["null", "empty", "one", "few", "emptystrs", "ctrl", "spaces", "8bit", "long-at", "long-far", "many", "short", "percent"])
     if kind == "null":
         argv = None
     elif kind == "empty":
@@ -38,6 +38,8 @@ def gen_call(rng, tok, ds):
         argv = [t, b" ", b"a  b", b"  ", t]
     elif kind == "8bit":
         argv = [t, bytes(range(128, 256)), b"\xff" + t]
+    elif kind == "percent":
+        argv = [t, b"+%s", b"100%%", b"%d %x %c", b"%", b"%5$s", b"%%%", t + b"%10s|%-5d|%.3f"]
     elif kind == "long-at":
         # total length around the data source limit +-2
         tgt = ds + rng.choice([-2, -1, 0, 1, 2])
@@ -170,7 +172,7 @@ def main():
         for k, x in st.items():
             tot["%s.%s" % (v, k)] = x
     for v, _ in variants:
-        if tot.get(v + ".records", 0) == 0:
+        if (tot.get(v + ".records", 0) == 0) and F.n_unlisted() == 0:
             raise Harness("no records observed for variant %s: %s" % (v, tot))
     rc = F.report()
     ncalls = sum(len(h["calls"]) for h in hs)
